@@ -5,6 +5,9 @@
 //   get <loc> <tok> <signing 0|1> <ttlNs> <key> <present> <nominalNowNs>
 //        GET /<loc> with "Authorization: Bearer <tok>"        -> <status> [hex(body) if 200]
 //        (<present> is for the model: "absent" or "p"+hex(body) of the stored block)
+//   geturl <rawpath> <none|hdr> <signing 0|1> <ttlNs> <key> <present> <nominalNowNs>
+//        http.NewRequest("GET", "http://keep.example"+rawpath) with the raw Authorization value
+//                                      -> badurl | 301 hex(Location path) | <status> [hex(body)]
 //   getnow <loc> <tok> <ttlNs> <key> <present> <nominalNowNs>
 //        BlobSigning on; sign <loc> with keepstore's SignLocator for the whole second that has
 //        already begun (expiry instant strictly in the past), GET it at once with the same token;
@@ -113,6 +116,29 @@ func (e *verifC07Env) run(line string) (out string) {
 		resp := e.do("GET", verifC07Hex(f[1]), verifC07Hex(f[2]), nil)
 		if resp.Code == 200 {
 			return "200 " + verifC07Enc(resp.Body.String())
+		}
+		return strconv.Itoa(resp.Code)
+	case f[0] == "geturl" && len(f) == 8:
+		// raw request target and raw Authorization header value, as a client would send them
+		e.config(f[3], verifC07Int(f[4]), verifC07Hex(f[5]))
+		req, err := http.NewRequest("GET", "http://keep.example"+verifC07Hex(f[1]), nil)
+		if err != nil {
+			return "badurl"
+		}
+		if f[2] != "none" {
+			req.Header["Authorization"] = []string{verifC07Hex(f[2])}
+		}
+		resp := httptest.NewRecorder()
+		e.h.ServeHTTP(resp, req)
+		switch resp.Code {
+		case 200:
+			return "200 " + verifC07Enc(resp.Body.String())
+		case 301:
+			u, err := url.Parse(resp.Header().Get("Location"))
+			if err != nil {
+				return "301 unparsable-location"
+			}
+			return "301 " + verifC07Enc(u.Path)
 		}
 		return strconv.Itoa(resp.Code)
 	case f[0] == "getnow" && len(f) == 7:
